@@ -521,6 +521,31 @@ def flatten_and_null_probe(R):
         want = {"getRoot": serialize(mod.Root, mod.get_root(), aliaser=camel)}
         if res.errors or res.data != want:
             R.violation(f"query over flattened fields gives {res.data!r} / {res.errors!r}; serialize gives {want!r}", dict(info, query=q))
+        # constraints attached to a parameter (parameters_metadata) are enforced like deserialize(..., schema=...)
+        from apischema import schema as schema_, deserialize, ValidationError
+        from apischema.graphql import Query
+        seen = []
+
+        def limited(x: int, names: list = ()) -> int:
+            seen.append((x, names))
+            return x
+        limited.__annotations__["names"] = mod.__dict__["List"][str]
+        sch2 = graphql_schema(query=[Query(limited, parameters_metadata={"x": schema_(min=0, max=10), "names": schema_(max_items=1)})],
+                              aliaser=camel)
+        for x, names in ((5, ["a"]), (-3, []), (11, []), (0, ["a", "b"]), (10, [])):
+            seen.clear()
+            q2 = "{ limited(x: %d, names: %s) }" % (x, json.dumps(names))
+            res = graphql.graphql_sync(sch2, q2)
+            R.count("parameter_schema_probe")
+            ok = True
+            try:
+                deserialize(int, x, schema=schema_(min=0, max=10))
+                deserialize(mod.__dict__["List"][str], names, schema=schema_(max_items=1))
+            except ValidationError:
+                ok = False
+            if ok != (not res.errors) or (not ok and seen) or (ok and seen != [(x, names)]):
+                R.violation(f"{q2}: deserialize with the parameter's schema {'accepts' if ok else 'rejects'}, the query gives errors "
+                            f"{res.errors!r} and the resolver received {seen!r}", info)
         for args, expected in (("base: 3", (3, 1, "dflt", None)), ("base: 3, stepSize: null", (3, None, "dflt", None)),
                                ("base: 3, stepSize: 2, label: null", (3, 2, None, None)), ("base: 3, flag: null", (3, 1, "dflt", None)),
                                ("base: 3, flag: true, label: \"a\"", (3, 1, "a", True))):
